@@ -39,6 +39,8 @@ func propC03(c *Ctx) {
 	// on another
 	c.ruleLoopsCoverAll("C03-LOOPS-COVER-ALL")
 	c.ruleLoopFlags("C03-LOOP-FLAG")
+	c.ruleEarlySuccess("C03-EARLY-SUCCESS")
+	c.ruleDeadErrorStores("C03-DEAD-ERROR-STORE")
 }
 
 // orderedMapType: is t (pointer to) one of the generated ordered maps (struct with data map + order slice)?
